@@ -1,6 +1,7 @@
 import AFProofs.Lemmas.Migrate
 import AFProofs.Lemmas.MigrateRows
 import AFModel.Generated.C19
+import AFModel.MigrateFeat
 
 /-!
 # C19 — opening an older database migrates it exactly once to the current schema
@@ -524,5 +525,123 @@ example :
     columnOf (interruptedR table { data := sampleData base, rev := .empty } 2).1.data "fit" "name" = [some none] ∧
     columnOf (interruptedR table { data := sampleData base, rev := .empty } 2).1.data "fit" "id" = [some (some "id")] := by
   decide
+
+/-! ## Part 5 — "all current features work on it" (`AFModel/MigrateFeat.lean`: `usable`)
+
+A feature is usable on a schema when every table/column of the mapped classes it goes through exists
+(`Generated.features`, regenerated from the mappers; the harness uses each feature on real files, migrated and
+not, and compares). -/
+
+/-- **a feature that works keeps working**: a migration (any statements, from any schema) that does not rename
+away or drop a column the feature needs leaves it usable -/
+theorem usable_stays (s : Schema) (l : List Stmt) (needs : Needs) (hu : usable s needs = true)
+    (hr : ∀ tc ∈ needs, ∀ st ∈ l, st.removes tc.1 tc.2 = false) :
+    usable (runStmts s l).1 needs = true := by
+  simp only [usable, List.all_eq_true] at hu ⊢
+  intro tc htc
+  exact hasCol_runStmts s l tc.1 tc.2 (hu tc htc) (hr tc htc)
+
+/-- a schema that holds the whole mapping supports every feature whose needs lie inside the mapping -/
+theorem usable_of_covers (s orm : Schema) (needs : Needs) (hc : covers s orm = true)
+    (hn : ∀ tc ∈ needs, tc ∈ columnsOf orm) : usable s needs = true := by
+  simp only [usable, List.all_eq_true]
+  intro tc htc
+  have hm := hn tc htc
+  simp only [columnsOf, List.mem_flatMap, List.mem_map] at hm
+  obtain ⟨p, hp, c, hcm, hpc⟩ := hm
+  simp only [covers, List.all_eq_true] at hc
+  have := hc p hp c hcm
+  rw [← hpc]
+  exact this
+
+/-- **why attempting a step again is harmless**: whether `ALTER TABLE t ADD c` succeeds or fails with "duplicate
+column", afterwards the table has the column - for every schema in which the table exists -/
+theorem add_column_ensures (s : Schema) (t c : String) (ht : (colsOf s t).isSome = true) :
+    hasCol (runStmts s [.addColumn t c]).1 t c = true := by
+  cases h : colsOf s t with
+  | none => simp [h] at ht
+  | some cs =>
+    by_cases hc : c ∈ cs
+    · simp [runStmts, applyStmt, h, hc, hasCol]
+    · simp [runStmts, applyStmt, h, hc, hasCol, colsOf_mapTable_same]
+
+/-- … and whether `CREATE TABLE t` succeeds or fails with "already exists", afterwards the table exists -/
+theorem create_table_ensures (s : Schema) (t : String) (cols : List String) :
+    (colsOf (runStmts s [.createTable t cols]).1 t).isSome = true := by
+  cases h : colsOf s t with
+  | some cs => simp [runStmts, applyStmt, h]
+  | none =>
+    simp only [runStmts, applyStmt, h]
+    induction s with
+    | nil => simp [colsOf]
+    | cons p rest ih =>
+      obtain ⟨n, cs⟩ := p
+      by_cases hn : n = t
+      · simp [colsOf, hn]
+      · simp only [colsOf, hn, if_false] at h
+        simp only [List.cons_append, colsOf, hn, if_false]
+        exact ih h
+
+/-- what the features need is part of the mapping (so `steps_cover_orm` speaks about them) -/
+theorem features_within_mapping : ∀ f ∈ features, ∀ tc ∈ f.2, tc ∈ columnsOf orm := by decide
+
+/-- no step renames away or drops anything a feature needs -/
+theorem feature_columns_never_removed :
+    ∀ f ∈ features, ∀ tc ∈ f.2, ∀ st ∈ stmtsOf steps, st.removes tc.1 tc.2 = false := by decide
+
+/-- the `revision`-table states a database of shape `v` is found in: no table, no row, `NULL`, an unknown id,
+the pinned id of its own revision -/
+def revStates (k : Nat) : List Rev :=
+  [.noTable, .empty, .row none, .row (some "0123456789abcdef0123456789abcdef")] ++
+    (if h : 0 < k ∧ k - 1 < revIds.length then [.row (some (revIds[k - 1]'h.2))] else [])
+
+/-- **every feature works after the first open** of every historic database shape in every state of its
+`revision` table, whether or not the caller commits -/
+theorem features_usable_after_open :
+    ∀ v ∈ variants, ∀ rev ∈ revStates v.2.1, ∀ c : Bool,
+      allUsable (session Cfg.fixed table orm (some { schema := v.2.2, rev := rev }) c).1.schema features = true := by
+  decide +kernel
+
+/-- … and after any number of further opens (fixed point) -/
+theorem features_usable_after_any_history (v : String × Nat × Schema) (hv : v ∈ variants) (rev : Rev)
+    (hrev : rev ∈ revStates v.2.1) (c : Bool) (h : List Bool) :
+    ∀ x ∈ runHistory Cfg.fixed table orm (some { schema := v.2.2, rev := rev }) (c :: h),
+      allUsable x.1.schema features = true := by
+  intro x hx
+  have hx' : x = session Cfg.fixed table orm (some { schema := v.2.2, rev := rev }) c ∨
+      x ∈ (runHistory Cfg.fixed table orm (some { schema := v.2.2, rev := rev }) (c :: h)).tail := by
+    simpa [runHistory] using hx
+  rcases hx' with rfl | hx'
+  · exact features_usable_after_open v hv rev hrev c
+  · rw [history_fixed_point table orm table_wf steps_nonempty _ c h x hx']
+    exact features_usable_after_open v hv rev hrev c
+
+/-- a database created by `open_database` supports every feature -/
+theorem features_usable_on_fresh (c : Bool) :
+    allUsable (session Cfg.fixed table orm none c).1.schema features = true := by
+  rw [fresh_db_stamped]
+  decide
+
+/-- also after an interrupted first open followed by a complete one -/
+theorem features_usable_after_interrupted_open :
+    ∀ v ∈ variants, ∀ j ∈ List.range (stmtsOf steps).length.succ,
+      allUsable (schemaAfter (runStmts v.2.2 ((stmtsOf steps).take j)).1 steps) features = true ∧
+      allUsable (schemaAfter (runStmts v.2.2 ((stmtsOf (steps.drop v.2.1)).take j)).1 (steps.drop v.2.1)) features
+        = true := by
+  decide +kernel
+
+/-- **the migration is needed** (non-vacuity of the theorems above): on every historic shape older than
+revision 8 *no* feature is usable before the open — the `Aggregator` cannot even load a fit, because the
+polymorphic `object` table lacks `latent_samples_for_id` -/
+theorem old_shapes_support_no_feature :
+    ∀ v ∈ variants, v.2.1 < 8 → ∀ f ∈ features, usable v.2.2 f.2 = false := by decide
+
+/-- shapes made by the pinned code at revision 8 lack exactly the named instances -/
+example : ∃ v ∈ variants, v.1 = "A8" ∧
+    (usableEach v.2.2 features).filter (fun p => !p.2) = [("named_instance", false)] := by decide
+
+/-- `usable_stays` has instances: JSON storage on the revision-8 shape through the remaining steps -/
+example : ∃ v ∈ variants, v.1 = "A8" ∧ ∃ f ∈ features, f.1 = "json" ∧ usable v.2.2 f.2 = true ∧
+    usable (runStmts v.2.2 (stmtsOf (steps.drop 8))).1 f.2 = true := by decide
 
 end AF.C19
